@@ -42,7 +42,8 @@ RULE = ("shape = class (Hexagon, Rectangle aspect 1..8, Circle, Cell, "
         "deg (0, +-30, +-60, +-90, 180, +-360, 720 forced); queries: polar "
         "points r/R in [0,2], points +-1e-7..1e-3 R off a boundary edge, "
         "scaled vertices; angles in [-720,720], ratios in [0,1]; users 1..6 "
-        "(20 thorough) with min_dist_ratio in [0,0.7]; clusters of "
+        "(20 thorough) with min_dist_ratio in [0,0.7], each populated cell "
+        "also shown through a wrapped copy with users; clusters of "
         "1,3,4,7,13,19 hexagon/3-sector and 1,4,9,16 square cells with 0..5 "
         "users per cell (19 hexagonal cells: optionally with the wrap-around "
         "ring). Non-trivial = contain: rotation not a multiple of "
